@@ -1,4 +1,4 @@
-import TexcraftModel.Lemmas.C01Cor
+import TexcraftModel.Lemmas.C01Items
 
 /-!
 # C01 — group scoping: property theorems
@@ -207,5 +207,80 @@ theorem prefix_c_violates :
       [.beginGroup, .define 1 (.cs 0) (.chr 65), .endGroup, .read (.cmd (.cs 0))]).2 ≠
     (Spec.init.run
       [.beginGroup, .define 1 (.cs 0) (.chr 65), .endGroup, .read (.cmd (.cs 0))]).2 := by decide
+
+/-! ## The input side: which tokens open and close groups is itself scoped state
+
+`Item`s (`Model/C01.lean`) are surface programs: besides the ops, a character typed in the source
+(`chr c`: begins a group iff its *current* `\catcode` is 1, ends one iff it is 2, is typeset
+otherwise), a name used as a command (`exec t`: a `\let`-alias of a character token acts as that
+token with the category code stored by the `\let`; an alias of a font selector selects the font)
+and `\let t=<character>` (`letChr`). `elabItem` is the modelled dispatch of the main loop / lexer
+(vm/mod.rs:163-240, `codes::cat_code`); the harness runs the same items on the real VM. -/
+
+/-- **Refinement for surface programs.** The group structure is not given in advance but decided
+item by item from scoped category codes and scoped `\let` meanings; model and specification still
+produce the same outputs, for every item list. -/
+theorem vm_refines_items (its : List Item) :
+    (runItems .fixed VMState.init its).2 = (Spec.init.runItems its).2 :=
+  C01.items_outs_eq its
+
+/-- … and TeX's own outputs when no item turns out to be a `\let` from an undefined name (C01-d). -/
+theorem vm_refines_items_partial (its : List Item) (h : Spec.noUndefLetItems Spec.init its = true) :
+    (runItems .fixed VMState.init its).2 = (Spec.init.runItemsTeX its).2 := by
+  rw [Spec.runItemsTeX_eq _ _ h]; exact C01.items_outs_eq its
+
+/-- The op programs of the theorems above are the sublanguage of items that are ops. -/
+theorem items_extend_ops (cfg : Variant) (m : VMState) (ops : List Op) :
+    runItems cfg m (ops.map Item.op) = run cfg m ops :=
+  C01.runItems_ops cfg m ops
+
+/-- **What a character or a name does is restored with the group.** After `hist { blk }` (`blk`
+well bracketed, no `\global`/`\gdef`, `\globaldefs` never assigned) every item is dispatched exactly
+as before the `{`: a character that `blk` turned into a group delimiter by `\catcode` is none any
+more, a name that `blk` `\let` to a brace has its old meaning. -/
+theorem item_reading_restored (hist blk : List Op) (it : Item)
+    (hnf : ∀ o ∈ (run .fixed VMState.init hist).2, o.fatal = false)
+    (hh : ∀ op ∈ hist, op.noGlobaldefs = true)
+    (hb : Bal blk) (hp : ∀ op ∈ blk, op.plain = true) :
+    elabItem (catOf (run .fixed VMState.init (hist ++ .beginGroup :: (blk ++ [.endGroup]))).1)
+        (getCmd (run .fixed VMState.init (hist ++ .beginGroup :: (blk ++ [.endGroup]))).1) it =
+      elabItem (catOf (run .fixed VMState.init hist).1) (getCmd (run .fixed VMState.init hist).1) it :=
+  C01.item_reading_restored_M hist blk it hnf hh hb hp
+
+-- non-vacuity: `\catcode`\[=1` inside a group makes `[` open a group there and not after it;
+-- `\let\ta=[` keeps the category code it saw; `]` (category 12) is typeset; a stray `}` is fatal.
+-- (91 = `[`, 93 = `]`; outputs of the model, = the specification's by the theorem.)
+example :
+    (runItems .fixed VMState.init
+      [.op (.assign 0 ⟨.count, 1⟩ 1), .chr 123, .op (.assign 0 ⟨.catcode, 91⟩ 1), .chr 91,
+       .op (.assign 0 ⟨.count, 1⟩ 2), .letChr 1 (.cs 0) 91, .chr 125, .op (.read (.var ⟨.count, 1⟩)),
+       .chr 125, .chr 91, .exec (.cs 0), .op (.assign 0 ⟨.count, 1⟩ 3), .chr 93, .chr 125,
+       .op (.read (.var ⟨.count, 1⟩)), .chr 125]).2
+    = [.unit, .unit, .unit, .unit, .unit, .unit, .unit, .val (some 1), .unit,
+       .cmd (some (.tok (tokCode 91 12))) none, .unit, .unit, .cmd (some (.tok (tokCode 93 12))) none,
+       .unit, .val (some 1), .errNoGroup] := by decide
+example : Spec.noUndefLetItems Spec.init
+    [.chr 123, .letChr 1 (.cs 0) 125, .exec (.cs 0), .op (.define 0 (.cs 1) (.lcs (.cs 0)))] = true := by
+  decide
+-- (with a *local* `\let\ta=}` the `\ta` that closes the group also undoes its own definition, and
+-- the following `\let\tb=\ta` is a `\let` from an undefined name)
+example : Spec.noUndefLetItems Spec.init
+    [.chr 123, .letChr 0 (.cs 0) 125, .exec (.cs 0), .op (.define 0 (.cs 1) (.lcs (.cs 0)))] = false := by
+  decide
+
+/-! ## Why two mutants of the sweep are equivalent (mutants/C01: 15, 29) -/
+
+/-- Mutant 15 — `VM::begin_group` pushes `Some(current_font)` instead of `None`: every program
+produces the same outputs (the fonts the open groups will restore are the same list). -/
+theorem eager_font_save_equivalent (hist : List Op) :
+    (runEager VMState.init hist).2 = (run .fixed VMState.init hist).2 :=
+  C01.runEager_eq hist
+
+/-- Mutant 29 — a definition primitive reads the pending flag after its arguments instead of
+before: the same state results, from every state (nothing it resolves depends on the flag and the
+hook changes nothing but the flag). -/
+theorem late_scope_hook_equivalent (cfg : Variant) (m : VMState) (pre : Nat) (t : CTarget) (d : Def) :
+    defineLate cfg m pre t d = define cfg m pre t d :=
+  C01.defineLate_eq cfg m pre t d
 
 end C01.Thm
